@@ -287,7 +287,7 @@ pub fn run_worker(ctx: &Ctx, rep: &mut Report, chunk: usize, nchunks: usize) {
     let mut ctx1 = ctx.clone();
     ctx1.threads = 1;
     let max_len = if ctx.thorough() { 4 } else { 3 };
-    let per = ctx.n((1_500_000 / js.len().max(1) as u64).max(250), (200_000_000 / js.len().max(1) as u64).max(40_000));
+    let per = ctx.n((1_500_000 / js.len().max(1) as u64).max(250), (30_000_000 / js.len().max(1) as u64).max(5_000));
     for (ji, j) in js.iter().enumerate() {
         if ji % nchunks != chunk {
             continue;
@@ -320,7 +320,7 @@ pub fn run_worker(ctx: &Ctx, rep: &mut Report, chunk: usize, nchunks: usize) {
         // float parsers of the core group (every radix and mixed base: per-radix tables, Bellerophon, big-integer
         // slow paths whose assertions / unwraps only trip for one radix and a band of exponents) get many more cases
         let deep = matches!(j.ty, Ty::Float(_)) && cat().entries[j.entry].group == "core";
-        let per = if deep { per.max(ctx.n(20_000, 400_000)) } else { per };
+        let per = if deep { per.max(ctx.n(20_000, 150_000)) } else { per };
         run_prop_jobs(
             rep,
             &ctx1,
